@@ -22,12 +22,14 @@ PLANS = {
         "thorough": [("hist", 20000), ("codec", 12000)],
     },
     "C14": {
-        "quick": [("seq", 700), ("threads", 500), ("abort", 400), ("abort_enum", 16)],
-        "thorough": [("seq", 12000), ("threads", 10000), ("abort", 8000), ("abort_enum", 60)],
+        "quick": [("seq", 700), ("threads", 500), ("abort", 400), ("abort_enum", 10),
+                  ("conc_enum", 12)],
+        "thorough": [("seq", 12000), ("threads", 10000), ("abort", 8000), ("abort_enum", 80),
+                     ("conc_enum", 160)],
     },
 }
 
-BATCH_NUMBERS = {"seq": 0, "threads": 1, "abort": 2, "abort_enum": 3, "hist": 0,
+BATCH_NUMBERS = {"seq": 0, "threads": 1, "abort": 2, "abort_enum": 3, "conc_enum": 4, "hist": 0,
                  "codec": 1, "fail": 2}
 
 
@@ -40,6 +42,10 @@ def batch_indices(batch, runs):
     return list(range(base, base + runs))
 
 
+def tier_thorough(batch):
+    return False
+
+
 def profile_for(prop, batch, open_findings):
     profile = {"batch": batch, "force": {}, "avoid": []}
     if batch == "seq":
@@ -50,6 +56,10 @@ def profile_for(prop, batch, open_findings):
             profile["force"] = {}
     elif batch in ("abort", "abort_enum"):
         profile["force"] = {"threads": False, "aborts": True}
+    if batch == "conc_enum":
+        profile["force"] = {"threads": False, "aborts": False, "codecs": False, "n_outer": 1}
+    if tier_thorough(batch):
+        pass
     if batch == "abort_enum":
         profile["stride"] = 7
         profile["force"].update({"codecs": False, "n_outer": 1})
